@@ -642,7 +642,6 @@ macro_rules! algorithm {
         // For skipping digit-based formats, this approximation is a way over estimate.
         // NOTE: Skipping zeros is **EXPENSIVE* so we skip that without our format feature
         let zeros = iter.skip_zeros();
-        start_index += zeros;
 
         // Now, check to see if we have a valid base prefix.
         let mut is_prefix = false;
@@ -655,7 +654,9 @@ macro_rules! algorithm {
                 if iter.is_buffer_empty() {
                     into_error!(Empty, iter.cursor());
                 } else {
-                    start_index += 1;
+                    // NOTE: Only a prefix moves the start of the digits:
+                    // leading zeros are digits themselves.
+                    start_index += zeros + 1;
                 }
             }
         }
